@@ -1,3 +1,4 @@
+import Fpdec.Kernels.DecUnops
 import Fpdec.Kernels.Log
 import Fpdec.Kernels.Unops
 import Fpdec.Lemmas.Unary
@@ -70,5 +71,16 @@ theorem kernel_div_ceil (prof : Profile) (x y : Int) : Gen.K.div_ceil prof x y =
 /-- the magnitude kernel: no `u32` addition in it can overflow, in any profile -/
 theorem kernel_log10_u128 (prof : Profile) (val : Nat) (h : val < 340282366920938463463374607431768211456) :
     Gen.K.u128 prof val = .ok (log10U128 val) := Kernels.u128_eq prof val h
+
+/-- the unary operations of unops.rs, as translated on this run -/
+theorem kernel_decimal_neg (prof : Profile) (d : Dec) : Gen.K.decimal_neg prof d = neg prof d := Kernels.decimal_neg_eq prof d
+theorem kernel_decimal_ref_neg (prof : Profile) (d : Dec) : Gen.K.decimal_ref_neg prof d = neg prof d :=
+  Kernels.decimal_ref_neg_eq prof d
+theorem kernel_decimal_abs (prof : Profile) (d : Dec) : Gen.K.decimal_abs prof d = abs prof d := Kernels.decimal_abs_eq prof d
+theorem kernel_decimal_floor (prof : Profile) (d : Dec) : Gen.K.decimal_floor prof d = floor prof d :=
+  Kernels.decimal_floor_eq prof d
+theorem kernel_decimal_ceil (prof : Profile) (d : Dec) : Gen.K.decimal_ceil prof d = ceil prof d := Kernels.decimal_ceil_eq prof d
+theorem kernel_decimal_trunc (prof : Profile) (d : Dec) : Gen.K.decimal_trunc prof d = trunc d := Kernels.decimal_trunc_eq prof d
+theorem kernel_decimal_fract (prof : Profile) (d : Dec) : Gen.K.decimal_fract prof d = fract d := Kernels.decimal_fract_eq prof d
 
 end Fpdec.Props.C15
